@@ -74,6 +74,17 @@ def cases(tier, seed):
             case["filter_script"] = {"pattern": PATTERNS[int(rng.integers(len(PATTERNS)))],
                                      "sites": [["search"], ["poll"], ["es"], ["search", "poll"], ["es", "poll"]][int(rng.integers(5))]}
         out.append(case)
+    # full grid noise mode x noise_final_samples on runs that certainly STOP ON THE BUDGET (the reserve for the final
+    # re-sampling is what keeps them within it): every combination appears in every run of the check
+    g = 0
+    for mode in ("auto", "declared", "declared+size", "he"):
+        for nfs in (0, 1, 3, 10):
+            for mfe in ((45, 60) if tier == "quick" else (40, 45, 50, 60, 75, 90)):
+                rng = gen.rng_for(seed, "C03", 600000 + g)
+                g += 1
+                spec = gen.make_spec(rng, D=int(rng.choice([1, 2, 3])), geom=str(rng.choice(["lin", "unb", "log"])), x0mode="in", land=str(rng.choice(["l1", "ramp", "rosen"])),
+                                     where="out", mode=mode, options={"noise_final_samples": nfs}, max_fun_evals=mfe, sigma=float(rng.choice([0.1, 1.0])))
+                out.append({"spec": spec, "kind": "budget-grid"})
     out += C.option_variation_slice("C03", tier, seed, kind="option-variation")
     return out
 
